@@ -26,7 +26,7 @@ REACH = ['history_shadow_judged', 'tree:accept', 'tree:reject', 'tree:Annotation
 BUDGET = {"quick": 35, "thorough": 600}
 RULE = (
     "Seeded histories in jaxtyped('context') blocks: bind T and S (or not, or to other trees), then 3-8 candidate "
-    "checks with structure forms T / S T / T S / T ... / ... T / ... S T / S T ...; candidates derived from t and s "
+    "checks with structure forms T / S T / T S / T ... / ... T / ... S T / S T ... / T T / T T S / S T S / T T ... / ... T T (a name repeated in one composite); candidates derived from t and s "
     "by composition, extension, bottom-layer replication and single-node perturbation (depth <= 4, tuples / lists / "
     "dicts / None / namedtuple / registered node, empty containers); leaf types int, Union[Float['2'],Float['3']], "
     "Union[PyTree[int],str]; plus run-time construction of PyTree[int, <string>] for 20 kinds of structure strings. "
@@ -170,8 +170,12 @@ def gen(seed, tier="quick"):
         if bound in ("both", "other"):
             ops.append({"op": "tree", "ann": ann("S"), "val": _map_leaves(s if bound != "other" else small(1), leafv), "_rel": "bind-S"})
         for _ in range(r.randrange(3, 9)):
-            rel = r.choice(("S.T", "T.S", "ext-T", "bottom-T", "t", "s", "ext-ST", "random"))
-            if rel == "S.T":
+            rel = r.choice(("S.T", "T.S", "ext-T", "bottom-T", "t", "s", "ext-ST", "random", "T.T"))
+            if rel == "T.T":  # a name used twice in one composite
+                x = _map_leaves(t, lambda: copy.deepcopy(t))
+                if r.random() < 0.3:
+                    x = _map_leaves(x, lambda: copy.deepcopy(s))
+            elif rel == "S.T":
                 x = _map_leaves(s, lambda: copy.deepcopy(t))
             elif rel == "T.S":
                 x = _map_leaves(t, lambda: copy.deepcopy(s))
@@ -192,6 +196,8 @@ def gen(seed, tier="quick"):
             if r.random() < 0.35:
                 x, pk = perturb(r, x)
             form = r.choice(("T", "T", "S T", "T S", "T ...", "... T", "... S T", "S T ...", "S"))
+            if rel == "T.T" or r.random() < 0.06:
+                form = r.choice(("T T", "T T", "T T S", "T T ...", "... T T", "S T S", "T", "T ..."))
             xv = _map_leaves(x, leafv)
             if leafkind == "int" and r.random() < 0.05:
                 xv = _map_leaves(x, lambda: {"t": "str", "v": "bad"})
